@@ -5,6 +5,8 @@ from __future__ import annotations
 import random
 from fractions import Fraction as F
 
+import numpy as np
+
 from mc import ordertypes as ot
 from mc import refs
 from mc.harness import guarded
@@ -57,6 +59,10 @@ def intervals(seed, tier="quick"):
 def work(tier, seed):
     b = bounds(tier)
     items = [{"ladder": n} for n in (ot.LADDER_QUICK if tier == "quick" else ot.LADDER_THOROUGH[:-1])]
+    if np.finfo(np.longdouble).eps < np.finfo(float).eps:
+        # long double scores closer together than one double-precision ulp: still distinct, still ordered
+        for bl in ot.order_types(2, 2, 1, 1) if tier == "quick" else ot.order_types(3, 3, 1, 1):
+            items.append({"longdouble": [list(x) for x in bl]})
     for bl in ot.order_types(b["max_pos"], b["max_neg"], 1, 1):
         # thorough: data sets of up to 6 samples get every grid, easy count and interval pair; the 4,600 larger
         # order types the three main grids with the quick menus
@@ -78,8 +84,9 @@ def run(item, ctx, tier, seed):
     b = bounds(tier)
     if "ladder" in item:
         return _run_ladder(item, ctx, seed)
+    if "longdouble" in item:
+        return _run_longdouble(item, ctx)
     blocks = [tuple(x) for x in item["blocks"]]
-    import numpy as np
 
     gkind = item["grid"]
     if gkind in ot.MIXED_KINDS:
@@ -191,6 +198,47 @@ def run(item, ctx, tier, seed):
                                  observed=tot, expected=areas[(l3, h3)])
     ctx.sample({"blocks": item["blocks"], "grid": item["grid"], "pos": pos, "neg": neg,
                 "intervals": [[str(a), str(c)] for a, c in ivs]})
+
+
+def _run_longdouble(item, ctx):
+    """The AUC depends on the order of the scores only: judged on ranks, data stored as long doubles that differ by
+    less than a double-precision ulp (and, as a control, by whole numbers)."""
+    from score_analysis import Scores
+
+    blocks = [tuple(x) for x in item["longdouble"]]
+    ld = np.longdouble
+    for spacing_name, vals in (("sub-double-ulp", [ld(1) + ld(k) * np.finfo(ld).eps * 4 for k in range(len(blocks))]),
+                               ("integers", [ld(k) for k in range(len(blocks))])):
+        pos_r, neg_r, pos_v, neg_v = [], [], [], []
+        for k, (a, c) in enumerate(blocks):
+            pos_r += [k] * a
+            neg_r += [k] * c
+            pos_v += [vals[k]] * a
+            neg_v += [vals[k]] * c
+        cross = any(a > 0 and c > 0 for a, c in blocks)
+        for cfg in ot.CFGS:
+            for ep, en in ((0, 0), (1, 2)):
+                case = {"blocks": item["longdouble"], "dtype": "longdouble", "spacing": spacing_name, "cfg": cfg, "easy": [ep, en]}
+                ok, s = guarded(ctx, "construct", case, Scores, np.array(pos_v[::-1], dtype=ld), np.array(neg_v[::-1], dtype=ld), nb_easy_pos=ep,
+                                nb_easy_neg=en, score_class=cfg[0], equal_class=cfg[1])
+                if not ok:
+                    continue
+                ctx.state()
+                ok, got = guarded(ctx, "auc-full", case, lambda: float(s.auc()))
+                ctx.tick()
+                ctx.nontrivial()
+                want = float(refs.ref_mann_whitney(pos_r, neg_r, cfg[0], ep, en))
+                if ok and not abs(got - want) <= 1e-9:
+                    ctx.fail("full-auc-equals-mann-whitney", case, observed=got, expected=want)
+                if not cross:
+                    for lo, hi in ((F(0), F(1, 2)), (F(1, 4), F(3, 4)), (F(1, 2), F(1))):
+                        ok, a = guarded(ctx, "auc-partial", dict(case, lower=str(lo), upper=str(hi)), lambda: float(s.auc(float(lo), float(hi))))
+                        ctx.tick()
+                        ref = float(refs.ref_step_area(pos_r, neg_r, cfg[0], ep, en, lo, hi))
+                        if ok and not abs(a - ref) <= 1e-9:
+                            ctx.fail("partial-auc-equals-step-area", dict(case, lower=str(lo), upper=str(hi)), observed=a, expected=ref)
+    ctx.sample({"longdouble": item["longdouble"]})
+    return None
 
 
 def _run_ladder(item, ctx, seed):
